@@ -4142,6 +4142,8 @@ def conc_programs(solver):
         "read_b": ("read_all", [P("/b")]), "exists_n": ("exists", [P("/n")]), "isdir_d": ("is_dir", [P("/d")]),
         "move_b_c": ("move_p", [P("/b"), P("/c")]), "setcwd_a": ("set_cwd", [P("/a")]), "mkfile_rel": ("mkfile", [P("r")]),
         "symlink_l_b": ("symlink", [P("/l"), P("/b")]), "appendline_b": ("append_line", [P("/b"), D("y")]),
+        "append_n_x": ("append_all", [P("/n"), D("x")]), "append_n_y": ("append_all", [P("/n"), D("y")]),
+        "move_b_ab": ("move_p", [P("/b"), P("/a/b")]), "read_ab": ("read_all", [P("/a/b")]),
     }
     return ops, data
 
@@ -4169,12 +4171,23 @@ def run_concurrent(ctx, prop, programs, tag="c04_conc"):
             def on_done(st, results, inner, i, paths=paths, order=order):
                 paths.append((list(st.pc), results, snapshot_store(ex, st, inner)))
             MemRun.explore(run, TREE1, "/", calls, cons, on_done)
-            if len(paths) != 1 or any(r[0] != "ret" for r in paths[0][1]):
-                raise Unsupported("sequential reference run of %s is not a single normal path (%d)" % (pname, len(paths)))
+            if len(paths) == 1 and any(r[0] != "ret" for r in paths[0][1]):
+                # a call that panics or never returns (self-deadlock) even without concurrency: every thread sharing the
+                # filesystem is blocked from then on
+                badr = [r for r in paths[0][1] if r[0] != "ret"][0]
+                ob.total += 1
+                ob.failures.append(dict(kind="panic", where="Memfs (concurrent)", cex={}, program=pname, threads=threads, trace="sequential %s" % (order,),
+                                        desc="C04: a call of program %s does not return normally even when run alone (%s: %s)" % (pname, badr[0], badr[1])))
+                seq_out = None
+                break
+            if len(paths) != 1:
+                raise Unsupported("sequential reference run of %s is not a single path (%d)" % (pname, len(paths)))
             per_thread = {}
             for (t, i), r in zip(order, paths[0][1]):
                 per_thread.setdefault(t, []).append(r[1])
             seq_out.append((order, per_thread, paths[0][2]))
+        if seq_out is None:
+            continue
         # ---- every interleaving of the critical sections
         groups = {k: data(k)[0] for k in ("x", "y")}
         nfinal = [0]
@@ -4247,6 +4260,8 @@ CONC_RUST_OPS = {
     "isdir_d": 'Ok::<String, RvError>(v.is_dir("/d").to_string())', "move_b_c": 'v.move_p("/b", "/c").map(|_| String::new())',
     "setcwd_a": 'v.set_cwd("/a").map(|_| String::new())', "mkfile_rel": 'v.mkfile("r").map(|_| String::new())',
     "symlink_l_b": 'v.symlink("/l", "/b").map(|_| String::new())', "appendline_b": 'v.append_line("/b", "Y").map(|_| String::new())',
+    "append_n_x": 'v.append_all("/n", "X").map(|_| String::new())', "append_n_y": 'v.append_all("/n", "Y").map(|_| String::new())',
+    "move_b_ab": 'v.move_p("/b", "/a/b").map(|_| String::new())', "read_ab": 'v.read_all("/a/b")',
 }
 
 
@@ -4273,6 +4288,13 @@ def conc_replay_src(f):
     return MEM_REPLAY_PRELUDE + '''
 #[test]
 fn replay_concurrent() {
+    // a call that never returns (deadlock) must fail the replay, not hang it
+    let (tx, rx) = std::sync::mpsc::channel();
+    std::thread::spawn(move || { replay_body(); let _ = tx.send(()); });
+    rx.recv_timeout(std::time::Duration::from_secs(90)).expect("C04: the calls did not all return within 90 s (deadlock) or a check failed");
+}
+
+fn replay_body() {
     // %s
     let mut allowed: Vec<(Vec<Vec<String>>, String)> = vec![];
 %s
@@ -4300,32 +4322,37 @@ CONC_QUICK = [
     ("set_cwd||mkfile_rel", [["setcwd_a"], ["mkfile_rel"]]),
     ("read||write", [["read_b"], ["write_b_x"]]),
     ("symlink||remove", [["symlink_l_b"], ["remove_b"]]),
+    ("append_new||append_new", [["append_n_x"], ["append_n_y"]]),
+    ("append_new||write_new", [["append_n_x"], ["write_n_y"]]),
+    ("move_over_file||read", [["move_b_ab"], ["read_ab"]]),
+    ("move_over_file||append", [["move_b_ab"], ["append_b_y"]]),
 ]
 
 
 @job("c04_interleavings", ["C04", "C12"], "quick",
      functions=["Memfs::{append_all,write_all,mkdir_p,mkfile,remove,remove_all,move_p,set_cwd,read_all,symlink} (real MIR) under a thread scheduler"],
-     bounds="9 two-thread programs with one call per thread from the op alphabet; every interleaving of the lock-protected critical sections (context switch before each lock acquisition); data bytes symbolic")
+     bounds="13 two-thread programs with one call per thread from the op alphabet (incl. creation races on a file that does not exist yet and a move onto an existing file); every interleaving of the lock-protected critical sections (context switch before each lock acquisition); data bytes symbolic")
 def c04_quick(ctx, prop):
     return run_concurrent(ctx, prop, CONC_QUICK)
 
 
 CONC_ALPHA = ["append_b_x", "append_b_y", "write_b_x", "write_n_y", "mkdir_de", "mkdir_d", "mkfile_n", "remove_b", "remove_n", "removeall_a",
-              "read_b", "exists_n", "isdir_d", "move_b_c", "setcwd_a", "mkfile_rel", "symlink_l_b", "appendline_b"]
+              "read_b", "exists_n", "isdir_d", "move_b_c", "setcwd_a", "mkfile_rel", "symlink_l_b", "appendline_b", "append_n_x", "append_n_y",
+              "move_b_ab", "read_ab"]
 
 
 def _mk_conc_pairs(k, n):
     @job("c04_pairs_%d" % k, ["C04", "C12"], "thorough",
          functions=["Memfs operations (real MIR) under a thread scheduler"],
-         bounds="two-thread programs with one call per thread: chunk %d of %d of all ordered pairs over an 18-operation alphabet; every interleaving of the critical sections" % (k + 1, n))
+         bounds="two-thread programs with one call per thread: chunk %d of %d of all ordered pairs over a 22-operation alphabet; every interleaving of the critical sections" % (k + 1, n))
     def f(ctx, prop):
         pairs = [("%s||%s" % (a, b), [[a], [b]]) for a in CONC_ALPHA for b in CONC_ALPHA]
         return run_concurrent(ctx, prop, pairs[k::n], tag="c04_pairs_%d" % k)
     return f
 
 
-for _k in range(6):
-    _mk_conc_pairs(_k, 6)
+for _k in range(8):
+    _mk_conc_pairs(_k, 8)
 
 
 @job("c04_two_calls", ["C04", "C12"], "thorough",
